@@ -435,7 +435,8 @@ def iso(blocks=1000, block_size=2048, desc_type=1, ident=b'CD001',
 # ---------------------------------------------------------------------------
 # MBR / GPT (UEFI 2.10 sec. 5)
 
-def gpt_disk(entries=128, entry_size=128, entry_lba=2, length=None, seed=0, signature=b'EFI PART'):
+def gpt_disk(entries=128, entry_size=128, entry_lba=2, length=None, seed=0, signature=b'EFI PART',
+             first_usable=None):
     """Protective MBR + primary GPT header at LBA 1 + partition entry array (the
     inspector of the pinned tree reads the MBR only; the header is here so that
     hostile count / size / LBA fields are part of the stream family)."""
@@ -448,7 +449,8 @@ def gpt_disk(entries=128, entry_size=128, entry_lba=2, length=None, seed=0, sign
     buf[entry_lba * 512:entry_lba * 512 + len(arr)] = arr
     h = bytearray(92)
     struct.pack_into('<8sIIIIQQQQ16sQIII', h, 0, signature, 0x00010000, 92, 0, 0, 1, total // 512 - 1,
-                     34, max(34, total // 512 - 34), b'\x11' * 16, entry_lba & ((1 << 64) - 1),
+                     (34 if first_usable is None else first_usable) & ((1 << 64) - 1),
+                     max(34, total // 512 - 34), b'\x11' * 16, entry_lba & ((1 << 64) - 1),
                      entries & 0xffffffff, entry_size & 0xffffffff, zlib.crc32(bytes(arr)) & 0xffffffff)
     struct.pack_into('<I', h, 16, zlib.crc32(bytes(h)) & 0xffffffff)
     buf[512:512 + 92] = h
